@@ -214,6 +214,11 @@ func genProfile(r *rand.Rand) *profile.Profile {
 		for j, d := 0, r.Intn(6); j < d; j++ {
 			s.Location = append(s.Location, locs[r.Intn(nl)])
 		}
+		if len(p.Sample) > 0 && r.Intn(4) == 0 {
+			// profiles built in memory may hand the same stack slice (or a tail of it) to several samples
+			o := p.Sample[r.Intn(len(p.Sample))].Location
+			s.Location = o[r.Intn(len(o)+1):]
+		}
 		if r.Intn(3) == 0 {
 			s.Label = map[string][]string{"k": {"v"}}
 		}
